@@ -206,9 +206,11 @@ def run_sequence(seq, idx):
 maxlen = 3 if tier == "quick" else 4
 idx = 0
 for n in range(1, maxlen + 1):
-    seqs = list(itertools.product(OPS, repeat=n))
-    if n == maxlen and tier == "quick":
-        seqs = rng.sample(seqs, 1500)
+    if n == maxlen:
+        # the longest length is sampled in both tiers (the operation alphabet has grown to ~40 operations)
+        seqs = [tuple(rng.choice(OPS) for _ in range(n)) for _ in range(1500 if tier == "quick" else 40000)]
+    else:
+        seqs = list(itertools.product(OPS, repeat=n))
     for seq in seqs:
         # keep only sequences with at least one lookup after at least one write, or a reopen
         if not any(o[0] in ("lookup", "reopen", "close_reopen") for o in seq):
@@ -273,4 +275,4 @@ emit({"evaluations": evaluations, "distinct_nontrivial": len(distinct),
               "case-differing non-variant",
       "failures": list(failures.values()), "samples": samples,
       "bound": f"all sequences of length <= {maxlen - 1} over {len(OPS)} operations on {len(PAGES)} titles "
-               f"(length {maxlen}: {'sampled' if tier == 'quick' else 'all'}), random sequences to length 40; real SQLite file"})
+               f"(length {maxlen}: sampled), random sequences to length 40; real SQLite file"})
